@@ -4,6 +4,7 @@ Require Extraction.
 Require Import ExtrOcamlBasic.
 From Coq Require Import List NArith Strings.String.
 From V Require Import Base.Bytes Base.Res Gen.Tables Model.Escape Spec.EscapeSpec Model.Ast Model.Html Spec.HtmlSpec Gen.Scanners.
+From V Require Import Spec.Shape.
 Extraction Language OCaml.
 Set Extraction KeepSingleton.
 
@@ -38,4 +39,8 @@ Extraction "model.ml"
   HtmlSpec.safe_ev
   HtmlSpec.s7
   Scanners.dangerous_url
+  Shape.s2
+  Shape.s3
+  Shape.s6
+  Shape.s6w
 .
